@@ -61,6 +61,7 @@ type det struct {
 	fails    []fail
 	hung     bool
 	tmo      time.Duration
+	base     map[string]bool // goroutines of other executors, alive when this one was made (quiet.go)
 }
 
 func newDet(w, cap int, tmo time.Duration) *det {
@@ -150,6 +151,7 @@ func (d *det) do(op string) string {
 	}
 	switch ws[0] {
 	case "new":
+		d.base = poolBaseline()
 		if p := hxlib.Guard(func() { d.ex = sched.NewThreadPoolExecutor(d.w, d.cap) }); p != "" {
 			return "panic"
 		}
@@ -275,6 +277,11 @@ func (d *det) do(op string) string {
 			return "-"
 		}
 		return d.awaitShutdown(eff)
+	case "quiet":
+		if d.ex == nil {
+			return "bad-op"
+		}
+		return d.quiet()
 	case "await-shutdown":
 		if d.shut == nil {
 			return "bad-op"
